@@ -1,6 +1,9 @@
 #!/bin/sh
+# re-verify every seeded wave against the current checks (4 lanes x 4 workers per wave)
 cd /verif
 tools/seed_wave.sh /tmp/mut "" > /tmp/w/all_w1.log 2>&1
 tools/seed_wave.sh /tmp/mut2 w3 > /tmp/w/all_w3.log 2>&1
 tools/seed_wave.sh /tmp/mut3 w4 > /tmp/w/all_w4.log 2>&1
 tools/seed_wave.sh /tmp/mut4 w5 > /tmp/w/all_w5.log 2>&1
+tools/seed_wave.sh /tmp/mut5 w6 > /tmp/w/all_w6.log 2>&1
+tools/seed_wave.sh /tmp/mut6 w7 > /tmp/w/all_w7.log 2>&1
